@@ -17,6 +17,7 @@ from . import common
 
 SPEC = {
     "level": "exploration",
+    "level_text": "Exploration: offline trace checker over (string, molecule) events of real pipeline runs. On the exhaustive small sub-space the partition by string is compared with the partition by the harness's own brute-force canonical form (so a collision there cannot be missed); beyond it, near-miss pairs whose non-isomorphism is decided by an exact independent oracle must get different strings. A collision among molecules never generated is not excluded.",
     "technique": "offline trace checker over pipeline events: partition-by-string vs independent canonical form (exhaustive small space) + exact isomorphism oracle on near-miss pairs",
     "rule": ("events = (string, molecule) of real pipeline runs on M1 (ALL labelled graphs n<=4 quick / n<=5 thorough x all colourings from a 3-colour palette), "
              "M8 near-miss pairs (2-switches, moved isotope/radical, mass<->rad swap, C6 vs 2xC3, rook4x4 vs Shrikhande, CFI twisted vs untwisted over K4/K33/prism/Q3), "
